@@ -1,5 +1,5 @@
 use crate::distributions::*;
-use crate::functions::gamma;
+use crate::functions::ln_gamma;
 
 /// Implements the [Gamma](https://en.wikipedia.org/wiki/Gamma_distribution) distribution.
 #[derive(Debug, Clone, Copy)]
@@ -94,9 +94,11 @@ impl Continuous for Gamma {
         if x <= 0. {
             return 0.;
         }
-        self.beta.powf(self.alpha) / gamma(self.alpha)
-            * x.powf(self.alpha - 1.)
-            * (-self.beta * x).exp()
+        // in log space: beta^alpha and x^(alpha-1) overflow for large shapes although the
+        // density itself is moderate
+        (self.alpha * self.beta.ln() - ln_gamma(self.alpha) + (self.alpha - 1.) * x.ln()
+            - self.beta * x)
+            .exp()
     }
 }
 
